@@ -39,6 +39,10 @@ pub struct VState {
     /// when the driver next lets the executor run (at the same virtual time)
     pub defer_first_poll: bool,
     pub unpolled: Vec<usize>,
+    /// number of task polls the driver allows until it says otherwise (None = unlimited): a source
+    /// that ticks faster than its period would otherwise turn one advance of a day into millions
+    /// of deliveries; counted, never timed
+    pub poll_budget: Option<u64>,
 }
 
 #[derive(Clone)]
@@ -78,6 +82,7 @@ impl VExec {
             immediate_sleeps: 0,
             defer_first_poll: false,
             unpolled: vec![],
+            poll_budget: None,
         })))
     }
 
@@ -109,6 +114,15 @@ impl VExec {
         // take the future out so that the lock is not held while it runs (it calls sinks)
         let fut = {
             let mut g = self.lock();
+            if let Some(b) = g.poll_budget {
+                if b == 0 {
+                    drop(g);
+                    std::panic::panic_any(crate::seq::HarnessPanic(
+                        "VCLOCK: more task polls in one advance than periods can have elapsed (a source ticks faster than its period)".into(),
+                    ));
+                }
+                g.poll_budget = Some(b - 1);
+            }
             g.polls += 1;
             g.immediate_sleeps = 0;
             g.current_task = Some(t);
